@@ -62,6 +62,16 @@ func (l *Log) add(format string, args ...interface{}) {
 	l.lastAt = time.Now()
 }
 
+// addIf appends the line only if cond still holds while the log is locked and
+// nothing was logged during the last quiet period.
+func (l *Log) addIf(cond func() bool, line string) {
+	l.mu.Lock()
+	defer l.mu.Unlock()
+	if time.Since(l.lastAt) >= 4*time.Millisecond && cond() {
+		l.lines = append(l.lines, line)
+	}
+}
+
 func (l *Log) len() int {
 	l.mu.Lock()
 	defer l.mu.Unlock()
@@ -339,6 +349,7 @@ type ScriptBackend struct {
 	deqAck      bool
 
 	closures []*closureRec
+	inDeq    bool
 	queue    chan *packet.Message
 	wg       sync.WaitGroup
 }
@@ -407,7 +418,7 @@ func (b *ScriptBackend) register(ack broker.Ack) *closureRec {
 func (b *ScriptBackend) invoke(r *closureRec) {
 	b.log.add("AckCall %d %%g", r.k)
 	r.fn()
-	b.log.add("AckRet %d", r.k)
+	b.log.add("AckRet %d %%g", r.k)
 }
 
 func (b *ScriptBackend) after(r *closureRec) {
@@ -480,6 +491,14 @@ func (b *ScriptBackend) Publish(_ *broker.Client, msg *packet.Message, ack broke
 
 func (b *ScriptBackend) Dequeue(c *broker.Client) (*packet.Message, broker.Ack, error) {
 	b.log.add("DeqCall %%g")
+	b.mu.Lock()
+	b.inDeq = true
+	b.mu.Unlock()
+	defer func() {
+		b.mu.Lock()
+		b.inDeq = false
+		b.mu.Unlock()
+	}()
 	if b.failing("deq") {
 		b.log.add("DeqRet %%g err")
 		return nil, nil, errInjected
@@ -550,4 +569,10 @@ func (c *RecConn) consumedClosed() bool {
 	c.mu.Lock()
 	defer c.mu.Unlock()
 	return c.closed
+}
+
+func (b *ScriptBackend) dequeuerBlocked() bool {
+	b.mu.Lock()
+	defer b.mu.Unlock()
+	return b.inDeq && len(b.queue) == 0
 }
